@@ -245,6 +245,20 @@ theorem varPtrName_cached (minify : Bool) (v : Nat) (name nm : Name) (chain : Li
     (h : lookupPtr v chain = some nm) : varPtrName minify v name false chain = some (chain, nm) := by
   simp [varPtrName, h]
 
+/-! ## The `.inc.js` wrapper (round 3) -/
+
+/-- the wrapper tail `"\n\t}).call($global);\n"` of `WritePkgCode` loses its leading line break -/
+theorem wrapper_tail_stripped :
+    removeWhitespace [10, 9, 125, 41, 46, 99, 97, 108, 108, 40, 36, 103, 108, 111, 98, 97, 108, 41, 59, 10] true =
+      some [125, 41, 46, 99, 97, 108, 108, 40, 36, 103, 108, 111, 98, 97, 108, 41, 59] := by decide
+
+/-- hence the raw segment before it must end outside a line comment: after `//! x` (no line break) the junction is
+    unsafe, after `//! x\n` or after `f();` it is safe -/
+theorem junction_examples :
+    junctionSafe [47, 47, 33, 32, 120] [125, 41] = false ∧
+    junctionSafe [47, 47, 33, 32, 120, 10] [125, 41] = true ∧
+    junctionSafe [102, 40, 41, 59] [125, 41] = true := by decide
+
 /-- Not claimed: the corresponding statement with minification off (`name`, `name$1`, …) needs a side condition on the
     requested names (no Go identifier encodes to another one followed by `$<digits>`); it belongs to C01. -/
 def names_distinct_plain : Prop :=
